@@ -97,7 +97,7 @@ class FactorHooks:
         if name in ('np.exp', 'np.log', 'np.nan_to_num', 'np.abs') and args and isinstance(args[0], NDV) and 'out' not in kw:
             v = args[0]
             return NDV(v.labels, v.dims, eng.fresh(short, V), v.flat)
-        if name in ('np.logaddexp', 'np.add', 'np.multiply', 'np.maximum') and len(args) == 2 and all(isinstance(a, NDV) for a in args):
+        if name in ('np.logaddexp', 'np.add', 'np.multiply', 'np.maximum', 'np.divide', 'np.subtract') and len(args) == 2 and all(isinstance(a, NDV) for a in args):
             return self.elementwise(eng, st, args[0], args[1], node, short)
         if name == 'np.where' and len(args) == 3:
             nds = [a for a in args if isinstance(a, NDV)]
@@ -212,6 +212,10 @@ class FactorHooks:
         return NDV(Arr(a.labels.n, at, name='labels-ew'), a.dims, eng.fresh(what, V))
 
     def binop(self, eng, st, op, l, r, node, inplace=False):
+        if isinstance(l, E.Obj) and l.cls == 'Factor' and isinstance(r, E.Obj) and r.cls == 'Factor':
+            key = {ast.Add: '.__add__', ast.Mult: '.__mul__', ast.Sub: '.__sub__', ast.Div: '.__truediv__'}.get(type(op))
+            if key and key in eng.registry:
+                return eng.call_contract(st, key, eng.registry[key], l, [r], {}, node)
         if isinstance(l, NDV) and isinstance(r, NDV):
             return self.elementwise(eng, st, l, r, node, type(op).__name__.lower())
         if isinstance(l, NDV) and isinstance(r, (E.Num, E.Obj)):
